@@ -225,10 +225,31 @@ func GRPCDialPing(b *plugin.GRPCBroker, id uint32, timeout time.Duration, closeA
 	return r
 }
 
-func PingConn(conn *grpc.ClientConn, timeout time.Duration) (string, error) {
+// GRPCDialPingWait is GRPCDialPing with a first call that waits for the connection to come up (gRPC
+// keeps reconnecting, knocking again each time) instead of failing with the first connection attempt.
+func GRPCDialPingWait(b *plugin.GRPCBroker, id uint32, timeout time.Duration) *DialRes {
+	r := &DialRes{}
+	t0 := time.Now()
+	conn, err := b.Dial(id)
+	r.DialMs = time.Since(t0).Milliseconds()
+	if err != nil {
+		r.DialErr = err.Error()
+		return r
+	}
+	r.conn = conn
+	msg, err := PingConn(conn, timeout, grpc.WaitForReady(true))
+	r.PingMs = time.Since(t0).Milliseconds() - r.DialMs
+	if err != nil {
+		r.PingErr = err.Error()
+	}
+	r.Msg = msg
+	return r
+}
+
+func PingConn(conn *grpc.ClientConn, timeout time.Duration, opts ...grpc.CallOption) (string, error) {
 	ctx, cancel := context.WithTimeout(context.Background(), timeout)
 	defer cancel()
-	resp, err := grpctest.NewPingPongClient(conn).Ping(ctx, &grpctest.PingRequest{})
+	resp, err := grpctest.NewPingPongClient(conn).Ping(ctx, &grpctest.PingRequest{}, opts...)
 	if err != nil {
 		return "", err
 	}
